@@ -13,7 +13,7 @@ from .c13 import job_files
 PROP = "C15"
 LEVEL = "exploration"
 MONITORS = ["dry_run_readonly", "dry_run_same_outcome", "deep_detects_same_stat", "exclude_never_written",
-            "selection_never_written", "parallel_equals_sequential"]
+            "selection_never_written", "parallel_equals_sequential", "parallel_raises_like_sequential"]
 RULE = (
     "Project pairs of the C13 universe, biased towards pairs where something would be copied, cloned or merged "
     "(nested conflicting documents included), where conflicting files share size and mtime, and where excluded "
@@ -49,7 +49,7 @@ def gen_cases(ctx):
         uncommon = rng.random() < 0.5
         symlinks = rng.choice([0, 0, 0, 1, 2, 3])
         if mode == "P":
-            opts["strategy"] = rng.choice(["always", "never", "update"])
+            opts["strategy"] = rng.choice(["always", "never", "update", None])
             opts["doc_sync"] = rng.choice(["update", "NO_SYNC", "bykey_regex"])
             opts["keys"] = ["k1", "m.x"]
             # more jobs
@@ -277,6 +277,17 @@ def mode_parallel(ctx, case):
     S, D = syncgen.build(ctx, src_spec, "s"), syncgen.build(ctx, dst_spec, "d")
     err = syncgen.call_sync(D, S, opts, [], [], entry="sync_projects")
     if err is not None:
+        # what the sequential run refuses, the parallel run refuses too (it may meet another conflict first)
+        from signac.errors import DocumentSyncConflict, FileSyncConflict
+
+        if isinstance(err, (FileSyncConflict, DocumentSyncConflict)):
+            S2, D2 = syncgen.build(ctx, src_spec, "sp"), syncgen.build(ctx, dst_spec, "dp")
+            err2 = syncgen.call_sync(D2, S2, opts, [], [], entry="sync_projects", parallel=case["parallel"])
+            ctx.monitor("parallel_raises_like_sequential")
+            if not isinstance(err2, (FileSyncConflict, DocumentSyncConflict)):
+                ctx.violation("parallel-swallows-conflict", "the sequential sync raised a conflict, the parallel one did not",
+                              {"sequential": repr(err), "parallel_outcome": repr(err2), "parallel": case["parallel"], "opts": opts})
+            return
         ctx.count("sequential_raised_unjudged")
         return
     ref = model.snapshot(D.path)
